@@ -31,8 +31,10 @@ var Check = &ev.Check{
 		"whole, all-1-byte, first-read-1-byte, zero-length reads and every single cut beyond); plus envelope encode/decode round trips through the value and stream APIs against ref/tbin bytes. " +
 		"classification family: every byte string of length<=5 (quick) / <=6 (thorough) over {00,01,02,04,08,0b,0c,0f,7f,80,81,ff} under all <=2-cut chunkings. " +
 		"A case is one (message, expected type); cases are distinct by construction; every case is non-trivial (it exercises framing detection).",
-	Run:    run,
-	Budget: func(t string) time.Duration { return map[string]time.Duration{"quick": 4 * time.Minute, "thorough": 25 * time.Minute}[t] },
+	Run: run,
+	Budget: func(t string) time.Duration {
+		return map[string]time.Duration{"quick": 4 * time.Minute, "thorough": 25 * time.Minute}[t]
+	},
 	Assumptions: []string{
 		"the empty method name is outside the property's domain (1..2^16 bytes): a legacy envelope with a zero-length name is indistinguishable from a version word; it is run and only noted",
 		"DecodeRequest 'accepts' means decode succeeded and forcing every lazy container of the body succeeded",
